@@ -40,14 +40,16 @@ CLAIMED = [
            'collapse_edge / split_* through the relation CollapsePropsFollow of OVMTet.tla (sizes, vertex, cell and unaffected edge/face values).' + COMMON, TECH, 'DESIGN.md section 6, C03; docs/tethex.md'),
     kernel('C04', 'Step relations GCRel and StatusGCRel (no pending deletions afterwards; live entities, definitions and property values preserved '
            'through a bijection; status-marked closure removed; with the manifoldness option exactly the faces/edges/vertices bounding no cell; every '
-           'vertex/halfedge/halfface/cell handle handed in for tracking designates the same entity or is invalid).' + COMMON, TECH, 'DESIGN.md section 6, C04'),
+           'vertex/halfedge/halfface/cell handle handed in for tracking designates the same entity or is invalid); the collected mesh also satisfies '
+           'CacheIsInverse (it equals the mesh obtained by immediate deletion including its incidences); history configurations are explored as call trees (no merging).' + COMMON, TECH, 'DESIGN.md section 6, C04'),
     kernel('C05', 'Circulator protocol (ProtoOK: max_laps 1..3 forward walk = expected list repeated, begin != end loop, k steps forward then k back '
            'restore handle and lap, begin advanced past the last lap == end, empty centre immediately invalid) for 26 circulators + boundary halfface '
-           'circulator, and the 6 entity iterators (ascending live handles forward, range, backward from end, backward with valid()).' + COMMON, TECH, 'DESIGN.md section 6, C05'),
+           'circulator, and the 6 entity iterators (ascending live handles forward, range, backward from end, backward with valid()); the tetrahedral and '
+           'hexahedral circulators (tet/hex vertices, cell sheets in 6 directions, halfface sheets) under the same protocol in a stage of the tet/hex module (OVMTet/OVMHex definitions).' + COMMON, TECH, 'DESIGN.md section 6, C05'),
     dict(kernel('C08', 'Handle algebra proved for all naturals with TLAPS (14 obligations); the C++ conversions evaluated on every index of [0, 2^30) '
            'and validated block-wise by TLC against the closed forms; Mirror predicate on every recorded state (opposite halfedge swaps endpoints, '
            'opposite halfface = reversed opposites, two sides of a face enumerate the same cycle in opposite directions, next/prev inverse); faces '
-           'built from vertex lists are closed loops through exactly those vertices.' + COMMON, TECH + '; TLAPS proof', 'DESIGN.md section 6, C08')),
+           'built from vertex lists or accepted with topology check are closed loops (every halfedge list up to length 3 offered to add_face).' + COMMON, TECH + '; TLAPS proof', 'DESIGN.md section 6, C08')),
     kernel('C09', 'State predicate FanOrder on every recorded state without set_face/set_cell in its history (for every single-fan edge: successor of a '
            'non-boundary halfface is the opposite of its in-cell neighbour, a boundary halfface only last, opposite halfedge mirrored) and '
            'adjacent_halfface_in_cell against its definition for every (halfface, halfedge).' + COMMON, TECH, 'DESIGN.md section 6, C09'),
